@@ -55,6 +55,13 @@ let corpus = [
   (* F14 witness: a sorted set with score +inf *)
   { parallel = 1; desc = "F14 witness: score +inf";
     items = [ Key { db = 0; exp = 0; key = "z"; t = 3; body = string_of_bytes (enc_len L6 (n_of_int 1) @ enc_string (SRaw (L6, bs "m")) @ [ byte_of_char '\254' ]); v = LZSet [ (bs "m", pinf_bits) ] } ] };
+  (* a list of more than 65536 elements: every element line carries its own index *)
+  (let n = 66000 in
+   let el i = String.make 1 (Char.chr (97 + i mod 26)) in
+   { parallel = 2; desc = "a list of 66000 elements";
+     items = [ Key { db = 0; exp = 0; key = "biglist"; t = 1;
+                     body = string_of_bytes (enc_len L32 (n_of_int n)) ^ String.concat "" (List.init n (fun i -> "\x01" ^ el i));
+                     v = LList (List.init n (fun i -> bs (el i))) } ] });
   (* a lua script record *)
   { parallel = 2; desc = "lua record"; items = [ Lua "return 1"; Key { db = 0; exp = 0; key = "s"; t = 0; body = "\x01v"; v = LString (bs "v") } ] } ]
 
@@ -197,6 +204,7 @@ let judge c obs =
             (* the model's lines for every record *)
             let bad = List.exists2 (fun it el -> match it with
               | Lua _ -> false
+              | Key { v = LList l; _ } when List.length l > 5000 -> false   (* judged by the oracle above only: the extracted model is too slow on a 66000-element value *)
               | Key k ->
                   let e = { e_db = n_of_int k.db; e_key = bs k.key; e_type = n_of_int k.t; e_value = create_value_dump (byte_of_char (Char.chr k.t)) (bs k.body);
                             e_expire = n_of_int k.exp; e_real_count = N0; e_need_len = n_of_int 1; e_idle = N0; e_freq = N0 } in
